@@ -168,6 +168,9 @@ def _aware(prog, f, b, key_operand, depth=0):
     return False
 
 
+_r12_ord = {}
+
+
 def _r012(ck, prog, cfg, meths):
     n = 0
     for m, f in _bodies(prog, meths):
@@ -183,8 +186,14 @@ def _r012(ck, prog, cfg, meths):
                 if st != "data":
                     continue
                 n += 1
-                key = "%s:%s(%s)%s" % (f.id.replace("redis::executor::", ""), callee(t).rsplit("::", 1)[-1].split("<")[0],
-                                       _key_id(f, t["args"][1]).split("#")[0], _tag(cfg))
+                # keyed by the handler (closures folded into it) and the read method, so that moving the read between the handler and a
+                # closure/loop of it, or renaming the key expression, keeps the key
+                meth = callee(t).rsplit("::", 1)[-1].split("<")[0]
+                r12 = _r12_ord.setdefault((id(prog), m.short, meth), [])
+                site = (f.id, b)
+                if site not in r12:
+                    r12.append(site)
+                key = "%s:%s#%d%s" % (m.short, meth, r12.index(site), _tag(cfg))
                 ck.check(_aware(prog, f, b, t["args"][1]), "R01.2", key,
                          "`data` is read for a key without first consulting its deadline (no dominating is_expired/get_value* on the "
                          "same key): an expired-but-not-yet-evicted key is treated as present", f.where(t["ln"]),
